@@ -120,4 +120,5 @@ def run(P, R, tier):
     from ..engines import own as _oe
     from . import C19 as _c19
     _c19.check_operator_alias(P, R, _oe.Own(P))
-
+    from ..engines import opt as _opt
+    R.floor("OPT default-field selections", _opt.check_function(P, R, "gmm:GMMStats.init_fields"), 3)
